@@ -372,6 +372,9 @@ def req_stream(res, tier, rng, driver_ok):
         del infos[:]
 
     for cs in cases:
+        if len(res.failures) >= MAX_RECORDED:
+            res.notes.append('req_stream cut short: 60 failing inputs already recorded')
+            break
         cfg = cs['cfg']
         if 'cmds' in cs:
             chars = [c for cmd in cs['cmds'] for c in cmd_chars(cmd)]
@@ -555,6 +558,9 @@ def resp_stream(res, tier, rng, driver_ok):
         del infos[:]
 
     for cs in cases:
+        if len(res.failures) >= MAX_RECORDED:
+            res.notes.append('resp_stream cut short: 60 failing inputs already recorded')
+            break
         wv, wvin = cs['wv'], cs['wvin']
         if 'ins' in cs:
             ins = cs['ins']
@@ -636,6 +642,9 @@ def sys_stream(res, tier, rng, driver_ok):
         del infos[:]
 
     for i in range(n):
+        if len(res.failures) >= MAX_RECORDED:
+            res.notes.append('sys_stream cut short: 60 failing inputs already recorded')
+            break
         r = rng.fork(('sys', i))
         cfg = (r.randint(1, 4), 32, r.randint(1, 3))
         wv, wvin = 8, 32
